@@ -68,7 +68,10 @@ func DriveVal(out io.Writer, seed int64, runs, length int) (map[string]int, erro
 					e = M{"type": "BeginBlock"}
 				}
 			default: // inside a block
-				switch w := r.Intn(100); {
+				switch w := r.Intn(115); {
+				case w >= 100:
+					e = M{"type": "Query", "q": pick(r, []string{"Validators", "Validators", "Validators", "Validator", "ValidatorByConsAddr", "LastValidators", "Params", "StakingParams"}),
+						"op": pick(r, append(ops, l1.BadNotBech32)), "key": pick(r, keys), "offset": int64(r.Intn(5)), "limit": int64(r.Intn(4)), "reverse": r.Intn(3) == 0}
 				case w < 30:
 					e = M{"type": "AddValidator", "signer": pick(r, []string{"opchild", "opchild", "opchild", "opchild", "x"}), "op": pick(r, ops), "key": pick(r, keys)}
 				case w < 50:
